@@ -143,6 +143,51 @@ def joinClause (scan : List Triple) (glo ghi : Option Int) (rows : List Row) (c 
 def solutions (scan : List Triple) (glo ghi : Option Int) (cs : List Clause) : List Row :=
   cs.foldl (joinClause scan glo ghi) [[]]
 
+/-! #### Object predicates bounded by bindings: `?s ?p "id"@[?lo,?hi]` -/
+
+def rowTimeT (r : Row) (k : Bytes) : Option Time :=
+  match r.get k with
+  | some (.time t) => some t
+  | _ => none
+
+/-- The clause as a row sees it: the interval of its object predicate is given by the row's values of the
+    bound aliases (as `clauseWindow` does for the predicate position). -/
+def withRowObjBounds (c : Clause) (r : Row) : Clause :=
+  if c.oLowerAlias = [] && c.oUpperAlias = [] then c
+  else { c with oLower := if c.oLowerAlias ≠ [] then rowTimeT r c.oLowerAlias else c.oLower,
+                oUpper := if c.oUpperAlias ≠ [] then rowTimeT r c.oUpperAlias else c.oUpper }
+
+/-- `joinClause` with object intervals read from the row. -/
+def joinClauseO (scan : List Triple) (glo ghi : Option Int) (rows : List Row) (c : Clause) : List Row :=
+  rows.flatMap fun r =>
+    let ms := (scan.filterMap (matchClause (withRowObjBounds c r) (clauseWindow glo ghi c r))).filter (compatible r)
+    if c.optional then
+      if ms.isEmpty then [r.merge ((c.bindings.filter (fun k => !r.has k)).map fun k => (k, Cell.null))]
+      else ms.map r.merge
+    else ms.map r.merge
+
+def solutionsO (scan : List Triple) (glo ghi : Option Int) (cs : List Clause) : List Row :=
+  cs.foldl (joinClauseO scan glo ghi) [[]]
+
+theorem joinClauseO_eq (scan : List Triple) (glo ghi : Option Int) (rows : List Row) (c : Clause)
+    (h : c.oLowerAlias = [] ∧ c.oUpperAlias = []) : joinClauseO scan glo ghi rows c = joinClause scan glo ghi rows c := by
+  have e : ∀ r, withRowObjBounds c r = c := by
+    intro r; unfold withRowObjBounds; simp [h.1, h.2]
+  unfold joinClauseO joinClause
+  simp only [e]
+
+/-- Without object bound aliases (the domain of C03's planner theorems) this is `solutions`. -/
+theorem solutionsO_eq (scan : List Triple) (glo ghi : Option Int) (cs : List Clause)
+    (h : ∀ c ∈ cs, c.oLowerAlias = [] ∧ c.oUpperAlias = []) : solutionsO scan glo ghi cs = solutions scan glo ghi cs := by
+  unfold solutionsO solutions
+  generalize ([[]] : List Row) = rows
+  induction cs generalizing rows with
+  | nil => rfl
+  | cons c cs ih =>
+    simp only [List.foldl_cons]
+    rw [joinClauseO_eq _ _ _ _ _ (h c List.mem_cons_self)]
+    exact ih (fun x hx => h x (List.mem_cons_of_mem _ hx)) _
+
 /-- Simultaneous projection onto the selected bindings. -/
 def project (ps : List Proj) (r : Row) : Row :=
   ps.foldl (fun out p => if p.out = [] then out else out.set p.out ((r.get p.binding).getD .null)) []
